@@ -184,10 +184,17 @@ def run(ctx):
         r = ctx.tlc_mc('P2PRecv_MC', 'P2PRecv_MCcov.cfg', workers=2, timeout=3600, coverage=True, count=False)
         _coverage_guard(ctx, r, 'P2PRecv_MCcov.cfg')
     # anti-vacuity: the mechanism without the repaired bounds check must violate Alive
-    bad = ctx.tlc_mc('P2PRecv_MC', 'P2PRecv_MCbad.cfg', workers=2, timeout=3600, expect_violation=True, count=False)
+    # (the shared logger would print the word reserved for verdicts about the code: reworded for this expected outcome)
+    _log = vlib.log
+    vlib.log = lambda *a: _log(*[str(x).replace('VIOLATION', 'expected model counterexample:') for x in a])
+    try:
+        bad = ctx.tlc_mc('P2PRecv_MC', 'P2PRecv_MCbad.cfg', workers=2, timeout=3600, expect_violation=True, count=False)
+    finally:
+        vlib.log = _log
+    ctx.mc_runs = [m for m in ctx.mc_runs if m.get('cfg') != 'P2PRecv_MCbad.cfg']  # a self-test, not a run of the checked model
     if bad['violation'] != 'Alive':
         raise vlib.Broken('model self-test failed: without the group bounds check the model should violate Alive, got %r' % bad['violation'])
-    ctx.extra['model_selftest_unguarded_mechanism_violates'] = 'Alive'
+    ctx.extra['model_selftest_unguarded_mechanism_violates'] = dict(invariant='Alive', cfg='P2PRecv_MCbad.cfg', distinct=bad['distinct'])
 
     if c33:
         ctx.rule = ('behaviours = (a) every complete behaviour of P2PRecv_All33 (one light block of every layout x '
